@@ -619,6 +619,7 @@ type ListReq struct {
 	Delim          string
 	MarkerKind     string // "", "marker", "token", "start-after"
 	Marker         string
+	AlsoStartAfter string // V2 with a token: the start-after of the first request sent along again (as SDK paginators do); the token decides
 	MaxKeys        string // raw query value, "" = absent
 	V2             bool
 	ClampedMaxKeys int64
@@ -649,6 +650,9 @@ func (r *Runner) List(q ListReq) (string, ListObs) {
 		v.Set("marker", q.Marker)
 	case "token":
 		v.Set("continuation-token", base64.URLEncoding.EncodeToString([]byte(q.Marker)))
+		if q.AlsoStartAfter != "" {
+			v.Set("start-after", q.AlsoStartAfter)
+		}
 	case "start-after":
 		v.Set("start-after", q.Marker)
 	}
